@@ -1,5 +1,6 @@
 import NucsProofs.Engine.MPProofs
 import NucsProofs.Engine.MPEndToEnd
+import NucsProofs.Engine.OptTrace
 /-!
   C11 — the multiprocessing solver equals the sequential solver for every interleaving.
 
@@ -27,7 +28,12 @@ import NucsProofs.Engine.MPEndToEnd
     `C11_end_to_end_solve_sequential`: … a permutation of what the sequential `solveAll P cfg'`
     returns, for any strategy `cfg'`;
   * `C11_end_to_end_optimize(_bc/_sequential)` : the value kept by the parent is `none` iff `P` has
-    no solution and otherwise a solution of optimal objective value, equal to the sequential optimum.  That the operating system
+    no solution and otherwise a solution of optimal objective value, equal to the sequential optimum;
+  * `C11_end_to_end_optimize_trace(_bc)` (NucsProofs/Engine/OptTrace.lean): the same with every worker's
+    stream COMPUTED by the model — `optimizeTrace` (NucsModel/Engine/OptTrace.lean) returns every
+    improving solution in order, `optimize` returns its last element (`optimizeTrace_optimize_eq`),
+    the trace strictly improves and consists of solutions; the correspondence compares it with the
+    messages the real `optimize_and_queue` puts on the queue.  That the operating system
   delivers SOME interleaving of the workers' streams is the trusted assumption.
 -/
 namespace Nucs
